@@ -76,6 +76,9 @@ func devMain(args []string) int {
 				}
 			}
 		} else if *verbose {
+			if r.Final != "" {
+				fmt.Print(r.Final)
+			}
 			fmt.Printf("run %d: ok actions=%d digest=%s heal=%+v\n", i, r.Stats.Actions, r.Digest, r.Heal)
 		}
 	}
